@@ -12,8 +12,8 @@ Verdict carried by this file:
                `repr()`-based expression it was false: exact characterisation `C17_escape_roundtrip_exact`,
                counterexamples machine-checked;
 * lookup     — holds for uniquely matching members (`C17_lookup_*`);
-* missing    — holds only under a guard; three exception classes escape
-               (`C17_missing_counterexample_*`);
+* missing    — holds only under a guard; on XML that Doxygen would not write two exception classes escape
+               (`C17_missing_counterexample_*`; the third one, `IndexError`, was repaired by fix b652f11);
 * state      — `C17_state`: the k-th lookup of an ambiguous key returns the k-th
                overload, and the empty docstring once the overloads are exhausted (fix b652f11).
 ("change nothing else" is a statement about `_wrap_method`'s output; it is
